@@ -93,32 +93,11 @@ register(Adapter("TimeDataFormat2", lambda: tdf.TimeDataFormat2(), ["channel_spe
                  types=[tdf.TimeDataFormat2], **_TIME))
 
 # ------------------------------------------------------------------------------------------ video format 2
-class TsBlockView(object):
-    """the fields of an `MPEGPacket` the Chapter 11 wrapper's model speaks about"""
-    def __init__(self, b):
-        self.pid, self.tei, self.pusi, self.transport_priority = b.pid, b.tei, b.pusi, b.transport_priority
-        self.tsc, self.adaption_ctrl, self.continuitycounter, self.payload = b.tsc, b.adaption_ctrl, b.continuitycounter, b.payload
-
-register(Adapter("Ch11TsBlock", None, ["pid", "tei", "pusi", "transport_priority", "tsc", "adaption_ctrl",
-                                       "continuitycounter", "payload"], types=[TsBlockView]))
-
-def _has_adaption(o):
-    return any(b.adaption_ctrl in (2, 3) for b in o.mpegts.blocks)
-
-def _video_pack(o):
-    if _has_adaption(o):
-        raise NotImplementedError("adaptation fields belong to the MPEG family's model")
-    return o.pack()
-
-def _video_eq(a, b):
-    if isinstance(a, video.VideoFormat2) and isinstance(b, video.VideoFormat2) and \
-            a.channel_specific_word == b.channel_specific_word and len(a.mpegts) == len(b.mpegts):
-        for x, y in zip(a.mpegts.blocks, b.mpegts.blocks):
-            if x.adaption_ctrl in (2, 3) or y.adaption_ctrl in (2, 3):
-                raise NotImplementedError("adaptation fields belong to the MPEG family's model")
-            if x != y:
-                break
-    return a == b
+# The nested MPEGTS object is printed as the list of its MPEGPacket blocks, each through the MPEG family's adapter
+# (all header fields, payload, adaptation field with extension); `set mpegts [x<chunk>;…]` decodes every chunk with a
+# new MPEGPacket() and installs a new MPEGTS holding them.  pack / == are the library's own (since the C04 extension
+# the Lean model covers adaptation fields; there is no NotImplemented escape any more).
+from . import mpeg as _mpeg_adapters          # registers the MPEGPacket / MPEGAdaption adapters used for the blocks
 
 def _video_set_ts(o, chunks):
     ts = mpegts.MPEGTS()
@@ -132,6 +111,6 @@ def _video_set_ts(o, chunks):
     o.mpegts = ts
 
 register(Adapter("VideoFormat2", lambda: video.VideoFormat2(), ["channel_specific_word", "datastream", "mpegts"],
-                 types=[video.VideoFormat2], pack=_video_pack, eq=_video_eq,
-                 getters={"mpegts": lambda o: [TsBlockView(b) for b in o.mpegts.blocks]},
+                 types=[video.VideoFormat2],
+                 getters={"mpegts": lambda o: list(o.mpegts.blocks)},
                  setters={"mpegts": _video_set_ts}))
